@@ -548,8 +548,9 @@ def _convert_parameter(parameter: SignatureParameter, parent: Module | Class) ->
     kind = _kind_map[parameter.kind]
     if parameter.default is _empty:
         default = None
-    elif hasattr(parameter.default, "__name__"):
-        # Avoid `repr` containing chevrons and memory addresses.
+    elif isinstance(getattr(parameter.default, "__name__", None), str):
+        # Avoid `repr` containing chevrons and memory addresses
+        # (objects answering every attribute lookup have a `__name__` that is not a name).
         default = parameter.default.__name__
     else:
         default = repr(parameter.default)
